@@ -510,6 +510,8 @@ def run_quiesce(s, J, op, plan, degenerate, results, counts):
                                             cold_stop_crit=cold["stop_crit"],
                                             cold_outer=(cold.get("seam") or {}).get("outer")),
                                 feat=J.feat(res, dict(n_outer=(res.get("seam") or {}).get("outer")))))
+    if op.get("twin_liveness") and not claimed and np.isfinite(res["stop_crit"]):
+        out.extend(judge_twin_liveness(s, J, res, knobs, op, plan, tol))
     if op.get("liveness_scale") and not claimed and pr.pen.convex and gen.get("rho", 1) <= 0.9 \
             and quad_like and pr.n >= pr.p + (1 if res["fi"] else 0) + 1 \
             and bool(pr.absX.any(axis=0).all()) and np.isfinite(res["stop_crit"]):
@@ -524,6 +526,54 @@ def run_quiesce(s, J, op, plan, degenerate, results, counts):
     if op.get("critical", False):
         out.extend(judge_critical(s, J, pr, res, w, b, tol, claimed, plan))
     return out
+
+
+def judge_twin_liveness(s, J, res, knobs, op, plan, tol):
+    """C19 'never ... fails to terminate', relative form: the degenerate problem's null column
+    (an all-zero feature, or - for the SVC dual - an all-zero sample) is decoupled from the rest,
+    so a cold solve that exhausts the ample budget while the *twin problem without that
+    column*, same knobs, converges within 20 outer iterations (GramCD: 1 000 epochs) has been
+    slowed down by the degenerate structure itself."""
+    import copy
+    dg = plan["data"].get("degen") or {}
+    X = np.asarray(plan["data"]["X"], dtype=float)
+    y = np.asarray(plan["data"]["y"], dtype=float)
+    if dg.get("kind") == "zero_row":
+        i = dg.get("row")
+        if i is None or X.shape[0] <= 2:
+            return []
+        X2, y2 = np.delete(X, i, axis=0), np.delete(y, i, axis=0)
+        if len(np.unique(y2)) < 2:
+            return []
+    else:
+        j = dg.get("col")
+        if j is None or X.shape[1] <= 1 or np.any(X[:, j] != 0):
+            return []
+        X2, y2 = np.delete(X, j, axis=1), y
+    tplan = copy.deepcopy(plan)
+    tplan["data"] = dict(plan["data"], X=X2.tolist(), y=y2.tolist(), degen=None)
+    tplan["family"] = copy.deepcopy(s.family)
+    tplan["family"]["pargs"] = copy.deepcopy(s.pargs)
+    if "sample_weights" in (tplan["family"].get("dargs") or {}):
+        return []
+    from .session import Session
+    try:
+        ts = Session(tplan)
+        cold = ts.call_solver(knobs, "cold", None, None, op.get("storage", plan.get("storage", "F")), record=False)
+    except Exception:
+        return []
+    s.probe("twin_liveness_compared")
+    if cold.get("exc") is not None or cold.get("stop_crit") is None:
+        return []
+    quick = ((cold.get("seam") or {}).get("outer") or 0) <= 20 if s.solver_name != "GramCD" \
+        else ((cold.get("seam") or {}).get("epochs") or 0) <= 1000
+    if claims_convergence(s.solver_name, cold["stop_crit"], tol) and quick:
+        return [dict(prop=["C19"], oracle="twin_liveness",
+                     sig=(s.solver_name, s.dname, s.pname, "null_column_keeps_solver_from_converging"),
+                     detail=dict(stop_crit=res["stop_crit"], tol=tol, twin_stop_crit=cold["stop_crit"],
+                                 twin_outer=(cold.get("seam") or {}).get("outer")),
+                     feat=J.feat(res, dict(n_outer=(res.get("seam") or {}).get("outer"))))]
+    return []
 
 
 def reference_witness(pr, hint=None):
